@@ -93,7 +93,7 @@ var modes = []string{"parse", "validate"}
 
 func TestC20(t *testing.T) {
 	h := hh.Start(t, "C20",
-		"single-test schemas; exhaustive sweeps: ContainsUpper/Digit/Special (and their Not forms) over every rune U+0000..U+02FF plus class-edge pairs; string Min/Max/Len for n in 0..6 over subjects of byte length 0..8 incl. multi-byte runes; numeric GT/GTE/LT/LTE/EQ over all pairs of per-width boundary sets incl. NaN/Inf/-0; slice Min/Max/Len/Contains (incl. pointer elements with pointer needles); the same tests on user-defined named types (StringSchema[T], NumberSchema[T], BoolSchema[T]) with Required on and off; time After/Before/EQ over {t-1ns,t,t+1ns} x zones; random: OneOf/Contains/HasPrefix/HasSuffix/Match; grammar classes: Email (WHATWG recogniser, generated members and single-edit near misses), UUID (8-4-4-4-12 hex, single edits), URL (only strings certainly with/without scheme+host). Non-trivial = subject within one unit of the parameter, a class-edge or multi-byte rune, a generated grammar member or near miss; every enumerated cell counts once",
+		"single-test schemas; exhaustive sweeps: ContainsUpper/Digit/Special (and their Not forms) over every rune U+0000..U+02FF plus class-edge pairs; string Min/Max/Len for n in 0..6 over subjects of byte length 0..8 incl. multi-byte runes; numeric GT/GTE/LT/LTE/EQ over all pairs of per-width boundary sets incl. NaN/Inf/-0; slice Min/Max/Len/Contains (incl. pointer elements with pointer needles); the same tests on user-defined named types (StringSchema[T], NumberSchema[T], BoolSchema[T]) with Required on and off; time After/Before/EQ over {t-1ns,t,t+1ns} x zones; random: OneOf/Contains/HasPrefix/HasSuffix/Match; grammar classes: Email (WHATWG recogniser, generated members and single-edit near misses), UUID (8-4-4-4-12 hex, single edits), URL (only strings certainly with/without scheme+host; every combination of port, path, query and fragment after the authority). Non-trivial = subject within one unit of the parameter, a class-edge or multi-byte rune, a generated grammar member or near miss; every enumerated cell counts once",
 		"issue present iff the reference predicate is false, in Parse and Validate; absent-looking subjects are supplied through Default (which the statement says is tested like any other value)",
 		"UUID version nibble and URL strings outside the certain classes are not asserted either way")
 	defer h.Finish()
@@ -360,6 +360,26 @@ func TestC20(t *testing.T) {
 		}
 	}, propC20(nil))
 
+	// 7b. URL shapes: every combination of the optional components after scheme://host
+	hh.Enumerate(h, "url-shapes", func(yield func(c20Case)) {
+		i := 0
+		for _, scheme := range []string{"http", "https", "ftp", "a1"} {
+			for _, host := range []string{"example.com", "a", "localhost", "1.2.3.4", "sub.d-x.io"} {
+				for _, port := range []string{"", ":8080"} {
+					for _, path := range []string{"", "/", "/a/b.c"} {
+						for _, query := range []string{"", "?", "?q=1&r=2"} {
+							for _, frag := range []string{"", "#", "#sec", "#/dash?x=1"} {
+								i++
+								sub := scheme + "://" + host + port + path + query + frag
+								yield(c20Case{Kind: model.KString, Test: model.TestSpec{Name: "url", Not: i%5 == 0}, Subject: model.Str(sub), Mode: modes[i%len(modes)]})
+							}
+						}
+					}
+				}
+			}
+		}
+	}, propC20(nil))
+
 	hh.Sub(h, "grammar", h.N(20000, 100000), func(rt *rapid.T) c20Case {
 		which := rapid.SampledFrom([]string{"email", "uuid", "url"}).Draw(rt, "which")
 		var s string
@@ -393,6 +413,9 @@ func TestC20(t *testing.T) {
 				}
 				if rapid.Bool().Draw(rt, "q") {
 					s += "?" + rapid.StringOfN(rapid.SampledFrom([]rune("ab1=&_-")), 0, 6, -1).Draw(rt, "qs")
+				}
+				if rapid.IntRange(0, 2).Draw(rt, "frag") == 0 { // a fragment may follow the authority, the path or the query
+					s += "#" + rapid.StringOfN(rapid.SampledFrom([]rune("ab1/?=&_.~-")), 0, 6, -1).Draw(rt, "fs")
 				}
 			} else {
 				s = rapid.StringOfN(rapid.SampledFrom([]rune("abz19./?#@ -_%é")), 0, 12, -1).Draw(rt, "nourl") // no ':' => no scheme
